@@ -285,6 +285,10 @@ func (fc *FnCtx) applyContract(cs *spec.FuncSpec, name string, args []Val, resT 
 		default:
 			old := smt.Select(fc.getHeap(st, key, vs), ref)
 			nv := fc.S.Fresh("hv_"+key, vs)
+			if _, isLit := ref.IsIntLit(); !isLit && ref.Sort == smt.Int {
+				// assigning through a nil reference changes nothing
+				nv = fc.S.Name("hvn_"+key, smt.Ite(smt.Eq(ref, smt.IntLit(0)), old, nv))
+			}
 			if key == "elems" {
 				fc.S.Assert(smt.Eq(smt.SLen(nv), smt.SLen(old)), "arrays keep their length")
 			}
@@ -570,12 +574,25 @@ func (fc *FnCtx) frameCheck(vars map[string]Val, st *State, g *smt.Term, where s
 		}
 		r := smt.Const("r!f", smt.Int)
 		conds := []*smt.Term{smt.Ge(r, smt.IntLit(0))}
+		if fc.guardKey(k) == "ghost:none" {
+			continue // scratch ghost state of pooled objects: never framed
+		}
 		if gk := fc.guardKey(k); gk != "" {
-			if g0, ok := fc.entry.H[gk]; ok {
-				conds = append(conds, smt.Select(g0, r))
-			} else {
-				conds = append(conds, smt.Select(fc.getHeap(fc.entry, gk, smt.Bool), r))
+			neg := false
+			if strings.HasPrefix(gk, "ghost:!") {
+				neg = true
+				gk = "ghost:" + gk[len("ghost:!"):]
 			}
+			var gt *smt.Term
+			if g0, ok := fc.entry.H[gk]; ok {
+				gt = smt.Select(g0, r)
+			} else {
+				gt = smt.Select(fc.getHeap(fc.entry, gk, smt.Bool), r)
+			}
+			if neg {
+				gt = smt.Not(gt)
+			}
+			conds = append(conds, gt)
 		}
 		for _, a := range allowed[k] {
 			conds = append(conds, smt.Neq(r, a))
@@ -610,13 +627,26 @@ func (fc *FnCtx) ownershipHavoc(pre, st *State) {
 		if gk == "" {
 			continue
 		}
+		if gk == "ghost:none" {
+			fc.havocKey(st, k)
+			continue
+		}
 		hs := fc.heapSorts[k]
 		_, vs, _ := smt.ArrParts(hs)
 		mid := fc.getHeap(st, k, vs)
+		neg := false
+		if strings.HasPrefix(gk, "ghost:!") {
+			neg = true
+			gk = "ghost:" + gk[len("ghost:!"):]
+		}
 		g0 := fc.S.Name("g0", fc.getHeap(pre, gk, smt.Bool))
 		nw := fc.S.Fresh("Ho_"+k, hs)
 		r := smt.Const("r!o", smt.Int)
-		fc.S.Assert(smt.Forall([]*smt.Term{r}, smt.Implies(smt.Select(g0, r), smt.Eq(smt.Select(nw, r), smt.Select(mid, r))), []*smt.Term{smt.Select(nw, r)}), "ownership frame of "+k)
+		cond := smt.Select(g0, r)
+		if neg {
+			cond = smt.Not(cond)
+		}
+		fc.S.Assert(smt.Forall([]*smt.Term{r}, smt.Implies(cond, smt.Eq(smt.Select(nw, r), smt.Select(mid, r))), []*smt.Term{smt.Select(nw, r)}), "ownership frame of "+k)
 		st.H[k] = nw
 		if fc.dry && fc.curBlock != nil {
 			m := fc.written[fc.curBlock]
